@@ -18,7 +18,7 @@ class C07(common.SpecCheck):
                    "fromFiber shares the fiber (DESIGN 4.2)"]
 
     def gen(self, rng, k):
-        return classes.gen_mixed(rng, [("S", 4), ("O", 4), ("A", 2), ("K", 4), ("P", 2)])
+        return classes.gen_mixed(rng, [("S", 4), ("O", 4), ("A", 2), ("K", 4), ("P", 2), ("O2", 1)])
 
     def nontrivial(self, spec, meta):
         return bool(meta.get("npart")) or bool(spec.get("rank_order"))
